@@ -98,6 +98,8 @@ def alphabet(n, subs, rich=True):
         o.append(("sw", ((0, 1), (1, 2), (2, 0))))
     for i, ou in [(0, 0), (1, n - 1), (n - 1, 1)]:
         o.append(("her", 1, i, ou))
+    o.append(("bsnp", 1, n - 1))         # numpy-integer mode numbers are accepted like ints
+    o.append(("her1", 1, n - 1))         # single-mode form: output defaults to the input mode
     if rich:
         o.append(("her", 0, 0, 1))
         o.append(("her", 2, n, 0))       # out of range: refused
@@ -143,6 +145,20 @@ def run_program(n, prog, env, acc, sub_factory=make_sub):
             P.bs(op[1], op[2], reflectivity=env.R2); R.bs(op[1], op[2], env.R2)
         elif k == "ps":
             P.ps(op[1], env.PH[0]); R.ps(op[1], env.PH[0])
+        elif k == "bsnp":
+            P.bs(np.int64(op[1]), np.int32(op[2]), reflectivity=env.R[1], convention="H"); R.bs(op[1], op[2], env.R[1], "H")
+        elif k == "her1":
+            valid = R.can_herald(op[2], op[2])
+            try:
+                P.herald(op[1], op[2])
+                ok = True
+            except (ValueError, lw.ModeRangeError):
+                ok = False
+            if ok != valid:
+                acc.violation("herald_legality", case, {"op": op, "accepted": ok, "legal": valid})
+                return
+            if ok:
+                R.herald(op[1], op[2], op[2])
         elif k == "bsl":
             try:
                 P.bs(op[1], op[2], reflectivity=env.R[1], loss=env.L2, convention="H")
@@ -248,6 +264,23 @@ def run(tier, seed):
         a = explore(n, alpha, depth, env, "n%d" % n)
         bounds["n=%d depth=%d" % (n, depth)] = {"alphabet": len(alpha), "subs": list(subs),
                                                "programs": int(a.counts["programs"])}
+        acc.merge(a)
+    # ---- stage 1b (quick): two additions followed by one more operation (mode numbering after out-of-order adds)
+    if tier == "quick":
+        n3 = 5
+        adds = [("add", nm, m, False) for nm in ("h3mid", "h3io", "h4two", "bs2") for m in range(0, n3 - 1)]
+        third = [o for o in alphabet(n3, ("h3mid",), True) if o[0] != "add" or o[2] in (0, 2)]
+
+        def shard_1b(firsts):
+            a = kernel.Acc()
+            for f in firsts:
+                for g in adds:
+                    for t in third:
+                        a.tick("programs"); a.tick("transitions", 3); a.tick("n5_add_add_op")
+                        run_program(n3, (f, g, t), env, a)
+            return a
+        a = kernel.pmap(shard_1b, kernel.interleave(adds, kernel.NPROC))
+        bounds["n=5 add,add,op"] = {"adds": len(adds), "third_ops": len(third), "programs": int(a.counts["programs"])}
         acc.merge(a)
     # ---- stage 2: pairs/triples of additions over the systematic sub family: every relative position of every
     # existing ancilla to every new one (the prose of the property), without the other component kinds
